@@ -438,6 +438,14 @@ class Catalog:
         return f
 
 
+def factor_float(cat, items):
+    """the factor of an expression as a float (fractional exponents through float pow)"""
+    f = 1.0
+    for p, s, (n, d) in items:
+        f *= (cat.units[s][0] * (cat.prefix_mag[p] if p else 1.0)) ** (n / d)
+    return f
+
+
 def render_exp(e):
     n, d = e
     if d == 1:
@@ -570,3 +578,30 @@ def reads_as_intended(cat, items):
         if p and p not in cat.units[s][2]:
             return False
     return True
+
+
+def near_equal_pairs(cat, lo=1e-15, hi=1e-4):
+    """same-dimension tokens (prefix, symbol) whose factors differ by a relative lo < |r-1| < hi: nearly but not
+    equal scales (yr / yr_t / yr_g, [m_p] / [mu_B], ly against [c]*yr_j, …)"""
+    by = {}
+    for s in cat.linear:
+        for p in [None] + list(cat.units[s][2]):
+            f = F(cat.units[s][0]) * (F(cat.prefix_mag[p]) if p else 1)
+            by.setdefault(cat.dimkey(s), []).append((f, [(p, s, (1, 1))]))
+    # a few compounds that spell a table unit out
+    for items in ([(None, "[c]", (1, 1)), (None, "yr_j", (1, 1))], [(None, "[c]", (1, 1)), (None, "yr", (1, 1))],
+                  [(None, "N", (1, 1)), (None, "m", (1, 1))], [(None, "[e]", (1, 1)), (None, "V", (1, 1))],
+                  [(None, "[h]", (1, 1)), (None, "Hz", (1, 1))], [(None, "deg", (1, 1)), (None, "rad", (-1, 1)), (None, "rad", (1, 1))][:1]):
+        if all(s in cat.units for _, s, _ in items):
+            by.setdefault(cat.dims_of_items(items), []).append((cat.factor_exact(items), items))
+    pairs = []
+    for toks in by.values():
+        toks.sort(key=lambda t: t[0])
+        for i, (fi, a) in enumerate(toks):
+            for fj, b in toks[i + 1:]:
+                r = fj / fi - 1
+                if r >= hi:
+                    break
+                if r > lo:
+                    pairs.append((a, b, float(r)))
+    return pairs
